@@ -206,15 +206,20 @@ def op_is_comment(ops):
     return 'put_line_comment' in ops
 
 
-def gen_step(rnd, root, donors, weights=None, norm=True, ops=None, with_par=False, kinds=None):
-    """Pick a target and an op. Returns step dict or None."""
+def gen_step(rnd, root, donors, weights=None, norm=True, ops=None, with_par=False, kinds=None, cand=None, op=None):
+    """Pick a target and an op (or use the given candidate index `cand` / operation `op`: table-driven workloads). Returns step dict or None."""
     cands = candidates(root.a)
     if kinds:
         cands = [c for c in cands if c[5] in kinds]
     if not cands:
         return None
+    forced_op = op
     # inverse-frequency weighting over (type, field) cells
-    if weights is not None:
+    if cand is not None:
+        if cand >= len(cands):
+            return None
+        node, parent, field, idx, path, kind = cands[cand]
+    elif weights is not None:
         def w(c):
             return 1.0 / (1 + weights.get((type(c[0]).__name__, c[2]), 0))
         tot = [w(c) for c in cands]
@@ -237,6 +242,10 @@ def gen_step(rnd, root, donors, weights=None, norm=True, ops=None, with_par=Fals
         if op_is_comment(ops):
             step_code_pool = ['cm', '# a much longer comment text', 'é', 'x']
     op = rnd.choice(pool)
+    if forced_op is not None:
+        if forced_op not in pool:
+            return None   # operation not applicable to this target
+        op = forced_op
     form = rnd.choice(['src', 'ast', 'fst'])
     ckind = 'expr' if kind in ('expr1', 'dictval') else kind
     src_pool = GRAMMAR_CODE.get(kind, []) + (donors.get(ckind, []) if kind not in ('target', 'starred') else [])
